@@ -203,8 +203,13 @@ func countOverlaps(h []histOp) int {
 
 func runDisk() {
 	r := proto.NewRng(fSeed ^ 0xC10)
-	const size = 3
 	for round := 0; round < fRounds; round++ {
+		// small disk with two hot addresses; every other round a 100-block disk whose hot addresses are the last two
+		// (implementations that partition blocks treat a tail that does not fill a partition specially)
+		size, hot := uint64(3), uint64(0)
+		if round%2 == 1 {
+			size, hot = 100, 98
+		}
 		var d disk.Disk
 		path := ""
 		if fImpl == "file" {
@@ -236,7 +241,7 @@ func runDisk() {
 				lr := proto.NewRng(seeds[c])
 				<-start
 				for k := 0; k < fOps; k++ {
-					in := diskIn{Addr: uint64(lr.Intn(2))} // two hot addresses
+					in := diskIn{Addr: hot + uint64(lr.Intn(2))} // two hot addresses
 					switch lr.Intn(8) {
 					case 0:
 						in.Op = "size"
